@@ -18,11 +18,12 @@ LCOut  == {256, 4095, 4352, 8191, 8448, 12287, 12544, 16383, 16640, 20479, 20736
 MinI32 == -2147483647 - 1
 X2Name == "http://example.com/x2"
 Classes(p, c) ==
-  CASE c = "implId"   -> <<{Abs}, HS({32}), HS({31, 33}), HS({0, 1, 64})>>
-    [] c = "instId"   -> <<{Abs}, {Bytes(33, 1)}, {Bytes(32, 1), Bytes(34, 1)}, {Bytes(33, 0), Bytes(33, 2), Bytes(0, 0), Bytes(1, 1)}>>
-    [] c = "bootSeed" -> IF p = "P1" THEN <<{Abs}, HS({32}), HS({31, 33}), HS({0, 8, 64})>>
-                                     ELSE <<{Abs}, HS({8, 9, 20, 31, 32}), HS({7, 33}), HS({0, 1, 64})>>
-    [] c = "nonce"    -> IF p = "P1" THEN <<{Abs}, HS({32, 48, 64}), HS({31, 33, 47, 49, 63, 65}), HS({0, 8, 80})>>
+  \* (the last class also holds lengths that equal a valid one modulo 2^8 / 2^16: 288 = 256 + 32, 65568 = 65536 + 32 ...)
+  CASE c = "implId"   -> <<{Abs}, HS({32}), HS({31, 33}), HS({0, 1, 64, 288, 65568})>>
+    [] c = "instId"   -> <<{Abs}, {Bytes(33, 1)}, {Bytes(32, 1), Bytes(34, 1)}, {Bytes(33, 0), Bytes(33, 2), Bytes(0, 0), Bytes(1, 1), Bytes(289, 1)}>>
+    [] c = "bootSeed" -> IF p = "P1" THEN <<{Abs}, HS({32}), HS({31, 33}), HS({0, 8, 64, 288, 65568})>>
+                                     ELSE <<{Abs}, HS({8, 9, 20, 31, 32}), HS({7, 33}), HS({0, 1, 64, 264, 288, 65544})>>
+    [] c = "nonce"    -> IF p = "P1" THEN <<{Abs}, HS({32, 48, 64}), HS({31, 33, 47, 49, 63, 65}), HS({0, 8, 80, 288, 304, 320})>>
                          ELSE <<{Abs}, {Nonces(<<H(n)>>) : n \in {32, 48, 64}},
                                 {Nonces(<<H(n)>>) : n \in {31, 33, 47, 49, 63, 65}},
                                 {Nonces(<<>>), Nonces(<<H(32), H(32)>>), Nonces(<<H(8)>>), Nonces(<<H(32), H(48), H(64)>>)}>>
@@ -45,7 +46,7 @@ Classes(p, c) ==
                            {SwV(<<Comp(Abs, Abs, Abs, H(32), Abs)>>), SwV(<<Comp(Abs, H(32), Abs, Abs, Abs)>>), SwV(<<ok, Comp(Str(1, 0), Abs, Abs, Abs, Abs)>>), SwV(<<Comp(Abs, H(0), Abs, H(0), Abs)>>)}>>
 ClaimOrder == <<"profile", "clientId", "lifecycle", "implId", "bootSeed", "certRef", "sw", "noSw", "nonce", "instId", "vsi">>
 \* component field alternatives: each field independently absent / valid / invalid
-HashAlt == {Abs, H(32), H(48), H(31), H(65)}
+HashAlt == {Abs, H(32), H(48), H(31), H(65), H(288)}
 TextAlt == {Abs, Str(3, 0)}
 CompAlt == {Comp(mt, mv, ver, sid, desc) : mt \in TextAlt, mv \in HashAlt, ver \in TextAlt, sid \in HashAlt, desc \in TextAlt}
 CompAltSmall == {Comp(mt, mv, Abs, sid, Abs) : mt \in TextAlt, mv \in {Abs, H(32), H(31)}, sid \in {Abs, H(64), H(65)}}
